@@ -46,7 +46,7 @@ fn spec(
     quick_runs: usize,
     thorough_runs: usize,
 ) -> PropSpec {
-    PropSpec { id, level: "exploration", gen, gen_rule, nontrivial, nontrivial_rule, required_probes, quick_runs, thorough_runs, quick_wall_s: 90.0, thorough_wall_s: 1200.0, assumptions: COMMON_ASSUMPTIONS, enumerated: None }
+    PropSpec { id, level: "exploration", gen, gen_rule, nontrivial, nontrivial_rule, required_probes, quick_runs, thorough_runs, quick_wall_s: 150.0, thorough_wall_s: 1200.0, assumptions: COMMON_ASSUMPTIONS, enumerated: None }
 }
 
 const BOTH_RULE: &str = "Two thirds of the scenarios are cluster scenarios (world W1: real nodes via Node::new over the simulated network, each with its own committee size/stakes, timeouts, latency shape and a random subset of fault kinds: slow leaders for seeded rounds, partitions, crashes, connection resets, stalls, latency spikes, clock jumps, short/pending writes, split reads, staggered boot). One third are puppet scenarios (world W2: ONE real node, all other authorities played by the harness with their keys; a seeded policy delivers one action per quiescence step: valid proposals with or without TC, equivocating siblings, stale proposals, missing payloads, votes / timeouts trickled one per step, TCs, timer expiries, duplicates, conflicting votes, replays, invalid variants).";
@@ -77,7 +77,7 @@ pub fn specs() -> Vec<PropSpec> {
             required_probes: &["st.waiters-woken-by-write", "st.notify-immediate", "st.read-hit", "st.read-miss", "st.several-waiters-one-key", "st.reopen-value-checked", "st.notify-still-pending"],
             quick_runs: 1500,
             thorough_runs: 60_000,
-            quick_wall_s: 90.0,
+            quick_wall_s: 150.0,
             thorough_wall_s: 1200.0,
             assumptions: &[
                 "sampling of interleavings, not enumeration; the interleaving is varied through yields and tokio scheduler knobs, not by an own poll-order scheduler",
@@ -96,7 +96,7 @@ pub fn specs() -> Vec<PropSpec> {
             required_probes: &["rs.retransmission", "rs.duplicate-delivery", "rs.cancelled", "rs.reset", "rs.resolved"],
             quick_runs: 2432 + 600,
             thorough_runs: 2432 + 60_000,
-            quick_wall_s: 90.0,
+            quick_wall_s: 150.0,
             thorough_wall_s: 1200.0,
             assumptions: &[
                 "the enumerated sub-space is covered completely; beyond it this is sampling",
@@ -121,7 +121,7 @@ pub fn specs() -> Vec<PropSpec> {
             required_probes: &["commit"],
             quick_runs: 240,
             thorough_runs: 6000,
-            quick_wall_s: 90.0,
+            quick_wall_s: 150.0,
             thorough_wall_s: 1200.0,
             assumptions: COMMON_ASSUMPTIONS,
             enumerated: None,
